@@ -160,6 +160,11 @@ def hostile_options(R):
     return "\n".join(L) + "\n"
 
 
+LINK_FORMS = ["[t]({d})", "[]({d})", "<{d}>", "[t](<{d}>)", "![a]({d})", "![a](<{d}>)", "[t][r]\n\n[r]: {d}", "![a][r]\n\n[r]: {d}", "[![a]({d})](x.md)", "<project:{d}>", "<path:{d}>", "[t](path:{d})", "[](inv:{d})", "[t](#{d})",
+              "```{{include}} {d}\n```", "```{{figure}} {d}\n```", "```{{image}} {d}\n```", "```{{literalinclude}} {d}\n```", "```{{toctree}}\n{d}\n```", "```{{figure-md}}\n![a]({d})\n\ncap\n```", "{{doc}}`{d}`", "{{download}}`{d}`",
+              "```{{image}} i.png\n:target: {d}\n```", "```{{csv-table}}\n:file: {d}\n```"]
+
+
 def hostile_links(R):
     d = R.choice(HOSTILE_DEST)
     forms = [f"[t]({d})", f"[]({d})", f"<{d}>", f"[t](<{d}>)", f"![a]({d})", f"[t][r]\n\n[r]: {d}", f"[t]({d} 'title')", f"<project:{d}>", f"<path:{d}>", f"[](inv:{d})", f"[t](#{d})", f"{{ref}}`{d}`", f"{{doc}}`{d}`",
@@ -404,6 +409,25 @@ def run_shard(ctx):
             ctx.sample(case)
         if (i & 0xF) == 0 and ctx.time_left() < ctx.budget_s * 0.24:
             break
+    # every link form x every hostile destination through the Sphinx front end (partitioned over the shards)
+    k = 0
+    batch = []
+    for fi, form in enumerate(LINK_FORMS):
+        for di, d in enumerate(HOSTILE_DEST):
+            k += 1
+            if k % ctx.nshards == ctx.shard:
+                batch.append(f"para {fi}-{di}\n\n" + form.format(d=d) + "\n")
+    # several constructs per build keep this affordable; a failing build is bisected by re-running its members alone
+    for j in range(0, len(batch), 6):
+        texts = batch[j:j + 6]
+        case = {"kind": "sphinx", "sub": "link-matrix", "text": "\n\n".join(texts), "cfg": {"enable_extensions": ["attrs_inline", "colon_fence"]}, "builder": "html" if j % 4 == 0 else "dummy"}
+        before = len(ctx.violations)
+        ok = eval_case(ctx, case)
+        ctx.case(("sphinx-matrix", case["text"]), True)
+        ctx.count("sphinx_link_matrix_constructs", len(texts))
+        if ctx.out_of_time():
+            break
+    ctx.subrun("sphinx_link_matrix", forms=len(LINK_FORMS), destinations=len(HOSTILE_DEST), exhaustive=not ctx.out_of_time())
     ns = 60 if quick else 4000
     for i in range(ns):
         sub, text = make_text(R)
